@@ -2115,6 +2115,16 @@ def check_C12(tier, seed, replay):
             if e["ok"]:
                 res.add(Violation("C12", "Reads", "the front end rejects a text that follows the syntax reference (%s): %s" % (name, out[:120]),
                                   None, extra))
+            else:
+                # front end and grammar.ebnf (as the model runs it) agree in rejecting: the text was printed from a
+                # grammar, so the independent reader of doc/syntax.md has the last word
+                try:
+                    readable = ebnf_reader.norm_grammar(ebnf_reader.read_grammar(text)) == ebnf_reader.norm_grammar(src)
+                except Exception:      # noqa
+                    readable = False
+                if readable:
+                    res.add(Violation("C12", "Reads", "the front end - and grammar.ebnf itself - reject a text that follows the syntax reference "
+                                      "(%s): %s" % (name, out[:120]), None, extra))
             continue
         if not e["ok"]:
             res.add(Violation("C12", "Reads", "the front end accepts a text the grammar of grammar files does not match (%s)" % name, None, extra))
